@@ -25,6 +25,8 @@ Model of the comparison routines (property C15).
   false except `!=`.  `ptr v` is `ValueType::ValuePtr` pointing at `v`.
   Kind ranks are the numeric values of `enum ValueType` (Value.hpp:34-46), re-extracted into
   `Qentem.Generated.Order` on every run and proved equal to `rank` in `Props/C15.lean`.
+  Since 73c896c a pointer operand is dereferenced on either side (`derefRight`); before, only
+  the left one was, which broke duality (`notes/fix-value-compare-deref-right.diff`).
 -/
 namespace Qentem.Order
 
@@ -143,10 +145,10 @@ def realEq : Option Int → Option Int → Bool
   | some a, some b => a == b
   | _, _ => false
 
-namespace Val
+/-! The comparisons once no operand is a pointer (Value.hpp:641-686 etc.): same kind → by
+    content, otherwise by kind rank.  (The pointer arms are unreachable from `Val.*`.) -/
+namespace Base
 
-/-- `Value::operator<` (Value.hpp:641-686).  Same kind: by content; left operand a pointer:
-    dereference the left operand only; otherwise compare the kind ranks. -/
 def lt : JVal → JVal → Bool
   | .obj a, .obj b => a < b
   | .arr a, .arr b => a < b
@@ -154,15 +156,12 @@ def lt : JVal → JVal → Bool
   | .nat a, .nat b => a < b
   | .int a, .int b => a < b
   | .real a, .real b => realLt a b
-  | .ptr a, .ptr b => lt a b
   | .tru, .tru => false
   | .fls, .fls => false
   | .null, .null => false
   | .undefined, .undefined => false
-  | .ptr a, b => lt a b
   | a, b => rank a < rank b
 
-/-- `Value::operator>` (Value.hpp:688-733). -/
 def gt : JVal → JVal → Bool
   | .obj a, .obj b => a > b
   | .arr a, .arr b => a > b
@@ -170,15 +169,13 @@ def gt : JVal → JVal → Bool
   | .nat a, .nat b => a > b
   | .int a, .int b => a > b
   | .real a, .real b => realLt b a
-  | .ptr a, .ptr b => gt a b
   | .tru, .tru => false
   | .fls, .fls => false
   | .null, .null => false
   | .undefined, .undefined => false
-  | .ptr a, b => gt a b
   | a, b => rank a > rank b
 
-/-- `Value::operator<=` (Value.hpp:735-780); across kinds it is the *strict* rank comparison. -/
+/-- across kinds `<=` is the *strict* rank comparison -/
 def le : JVal → JVal → Bool
   | .obj a, .obj b => a ≤ b
   | .arr a, .arr b => a ≤ b
@@ -186,15 +183,12 @@ def le : JVal → JVal → Bool
   | .nat a, .nat b => a ≤ b
   | .int a, .int b => a ≤ b
   | .real a, .real b => realLe a b
-  | .ptr a, .ptr b => le a b
   | .tru, .tru => true
   | .fls, .fls => true
   | .null, .null => true
   | .undefined, .undefined => true
-  | .ptr a, b => le a b
   | a, b => rank a < rank b
 
-/-- `Value::operator>=` (Value.hpp:782-827). -/
 def ge : JVal → JVal → Bool
   | .obj a, .obj b => a ≥ b
   | .arr a, .arr b => a ≥ b
@@ -202,15 +196,13 @@ def ge : JVal → JVal → Bool
   | .nat a, .nat b => a ≥ b
   | .int a, .int b => a ≥ b
   | .real a, .real b => realLe b a
-  | .ptr a, .ptr b => ge a b
   | .tru, .tru => true
   | .fls, .fls => true
   | .null, .null => true
   | .undefined, .undefined => true
-  | .ptr a, b => ge a b
   | a, b => rank a > rank b
 
-/-- `Value::operator==` (Value.hpp:829-874); false across kinds. -/
+/-- false across kinds -/
 def eq : JVal → JVal → Bool
   | .obj a, .obj b => a == b
   | .arr a, .arr b => a == b
@@ -218,13 +210,54 @@ def eq : JVal → JVal → Bool
   | .nat a, .nat b => a == b
   | .int a, .int b => a == b
   | .real a, .real b => realEq a b
-  | .ptr a, .ptr b => eq a b
   | .tru, .tru => true
   | .fls, .fls => true
   | .null, .null => true
   | .undefined, .undefined => true
-  | .ptr a, b => eq a b
   | _, _ => false
+
+end Base
+
+/-- `if (val.Type() == ValueType::ValuePtr) return (*this OP *(val.value_));` with a left operand
+    that is not a pointer: the right operand is dereferenced until it is not a pointer (each step
+    re-enters the operator with the same left operand). -/
+def derefRight (f : JVal → JVal → Bool) (a : JVal) : JVal → Bool
+  | .ptr b => derefRight f a b
+  | b => f a b
+
+namespace Val
+
+/-- `Value::operator<` (Value.hpp, after 73c896c).  Both pointers: compare the targets; left
+    operand a pointer: dereference it; right operand a pointer: dereference it; otherwise same
+    kind by content / different kinds by rank. -/
+def lt : JVal → JVal → Bool
+  | .ptr a, .ptr b => lt a b
+  | .ptr a, b => lt a b
+  | a, b => derefRight Base.lt a b
+
+/-- `Value::operator>`. -/
+def gt : JVal → JVal → Bool
+  | .ptr a, .ptr b => gt a b
+  | .ptr a, b => gt a b
+  | a, b => derefRight Base.gt a b
+
+/-- `Value::operator<=`. -/
+def le : JVal → JVal → Bool
+  | .ptr a, .ptr b => le a b
+  | .ptr a, b => le a b
+  | a, b => derefRight Base.le a b
+
+/-- `Value::operator>=`. -/
+def ge : JVal → JVal → Bool
+  | .ptr a, .ptr b => ge a b
+  | .ptr a, b => ge a b
+  | a, b => derefRight Base.ge a b
+
+/-- `Value::operator==`. -/
+def eq : JVal → JVal → Bool
+  | .ptr a, .ptr b => eq a b
+  | .ptr a, b => eq a b
+  | a, b => derefRight Base.eq a b
 
 end Val
 
@@ -284,10 +317,5 @@ def obsStr (a b : List Nat) : Obs :=
 
 def obsVal (a b : JVal) : Obs :=
   { lt := Val.lt a b, le := Val.le a b, gt := Val.gt a b, ge := Val.ge a b, eq := Val.eq a b }
-
-/-- The proposed repair (`notes/fix-value-compare-deref-right.diff`) dereferences the right
-    operand too; every operator then compares the pointed-to values.  Observations of the repaired
-    operators (driver op `ordvalf`, used to validate the patch on a scratch copy). -/
-def obsValFixed (a b : JVal) : Obs := obsVal (strip a) (strip b)
 
 end Qentem.Order
